@@ -10,8 +10,8 @@ import (
 	"time"
 
 	"cosmossdk.io/collections"
-	abci "github.com/cometbft/cometbft/abci/types"
 	"cosmossdk.io/math"
+	abci "github.com/cometbft/cometbft/abci/types"
 	sdk "github.com/cosmos/cosmos-sdk/types"
 	"github.com/cosmos/cosmos-sdk/types/query"
 	authtypes "github.com/cosmos/cosmos-sdk/x/auth/types"
@@ -162,9 +162,9 @@ func atoi(s string) any {
 // independent implementation of the formats, the two facts the specification uses.
 type ClaimBytes struct {
 	StorageRoot, BlockHash, Version []byte
-	Proofs                      [][]byte
-	RootName                    M
-	ProofOK                     bool
+	Proofs                          [][]byte
+	RootName                        M
+	ProofOK                         bool
 }
 
 func (ch *Chain) BuildClaim(e M) ClaimBytes {
@@ -259,7 +259,9 @@ func (ch *Chain) Exec(e M) Outcome {
 	deliver = func(msg sdk.Msg) Result { r := Deliver(f, ch.Ctx, msg); lastEvents = r.Events; return r }
 	updEvent := map[string]string{"UpdateProposer": ophosttypes.EventTypeUpdateProposer, "UpdateChallenger": ophosttypes.EventTypeUpdateChallenger,
 		"UpdateBatchInfo": ophosttypes.EventTypeUpdateBatchInfo, "UpdateMetadata": ophosttypes.EventTypeUpdateMetadata}
-	updResp := func(idx, l2bn uint64) M { return M{"idx": int64(idx), "l2bn": int64(l2bn), "evt": ch.eventRec(lastEvents, updEvent[ty])} }
+	updResp := func(idx, l2bn uint64) M {
+		return M{"idx": int64(idx), "l2bn": int64(l2bn), "evt": ch.eventRec(lastEvents, updEvent[ty])}
+	}
 
 	switch ty {
 	case "CreateBridge":
